@@ -294,6 +294,17 @@ structure ReprOK (env : TextEnv) (ev : Line → Option PyLit) (v : Val) : Prop w
   bytes_tok : ∀ b, v = .bytes b → BytesTok (env.reprV v)
   plain_tok : (∀ b, v ≠ .bytes b) → PlainTok (env.reprV v)
 
+/-- The part of `ReprOK` the NESTED text needs (it never prints the tuple token of a flag table value): the token
+    evaluates back to the value, has no white space at its ends, and has the shape of a bytes token / a plain token. -/
+structure ReprCore (env : TextEnv) (ev : Line → Option PyLit) (v : Val) : Prop where
+  eval_repr : ev (env.reprV v) = some (.val v)
+  edges : EdgesOK (env.reprV v)
+  bytes_tok : ∀ b, v = .bytes b → BytesTok (env.reprV v)
+  plain_tok : (∀ b, v ≠ .bytes b) → PlainTok (env.reprV v)
+
+theorem ReprOK.core {env : TextEnv} {ev : Line → Option PyLit} {v : Val} (h : ReprOK env ev v) : ReprCore env ev v :=
+  ⟨h.eval_repr, h.edges, h.bytes_tok, h.plain_tok⟩
+
 theorem pyStrip_edges (tok : Line) (h : EdgesOK tok) : pyStrip tok = tok := by
   obtain ⟨hne, hh, hl⟩ := h
   obtain ⟨t0, tl, rfl⟩ : ∃ t0 tl, tok = t0 ++ [tl] := ⟨tok.dropLast, tok.getLast hne, (List.dropLast_concat_getLast hne).symm⟩
